@@ -133,6 +133,14 @@ func matchAggregates(res *mk.Result, out *ref.Output) (msg string, legacyOnly bo
 		used[found] = true
 		usedLegacy = usedLegacy || legacyHere
 	}
+	// ORDER BY over grouping columns: the sequence of sort keys is determined even where rows tie
+	for i := range res.Rows {
+		for _, ki := range out.KeyIdx {
+			if i < len(out.Rows) && !model.GoEqual(res.Rows[i][ki], out.Rows[i][ki]) {
+				return fmt.Sprintf("row %d: sort key %v, expected %v - the aggregated rows are not in ORDER BY order\n  returned: %v\n  expected: %v", i, res.Rows[i][ki], out.Rows[i][ki], trunc(seqStrings(res.Rows)), expectedStrings(out)), false
+			}
+		}
+	}
 	if usedLegacy {
 		return "AVG differs from the true rounded mean and equals the running mean re-rounded after every row", true
 	}
@@ -414,4 +422,13 @@ func c07Run(c c07Case, st *vlib.Stats) string {
 
 func TestC07(t *testing.T) {
 	vlib.Drive(t, vlib.Prop[c07Case]{ID: "C07", Gen: c07Gen, Run: c07Run})
+}
+
+// seqStrings prints rows in the order given.
+func seqStrings(rows [][]interface{}) []string {
+	var out []string
+	for _, r := range rows {
+		out = append(out, model.RowString(r))
+	}
+	return out
 }
